@@ -194,7 +194,9 @@ def perturb(rng, env, w):
                 labels.append('removed')
         elif x < 0.5:
             k = rng.choice(['CC', 'CFLAGS', 'CPPFLAGS', 'LDFLAGS', 'AR',
-                            'CXX', 'LDLIBS', 'DESTDIR', 'MAKE'])
+                            'CXX', 'LDLIBS', 'DESTDIR', 'MAKE', 'NINJA',
+                            'BFG9000', 'DEPFIXER', 'PATCHELF', 'DOPPEL',
+                            'MKDIR_P'])
             e[k] = rng.choice(['/bin/false', '-O0 -DAMBIENT', 'gcc',
                                '/tmp/other'])
             labels.append('tool-var-changed')
@@ -306,7 +308,7 @@ def gen_scenario(seed, root, params):
     given the scenario.  World paths appear as the literal root and are
     replaced by $W when a scenario is stored."""
     rng = random.Random(seed)
-    backend = rng.choice(params.get('backends', ['make']))
+    backend = rng.choice(params.get('backends', ['make', 'ninja']))
     w = W.World(root, create=False)
     proj = G.GraphGen(rng, backend, allow={'global_options', 'install',
                                            'pkg_config', 'test',
@@ -324,6 +326,11 @@ def gen_scenario(seed, root, params):
         "lang='c')")))
     main.append(G.Stmt('info', "info('ARGV ' + repr(sorted(vars(argv)"
                                ".items())))"))
+    if rng.random() < 0.4:
+        # a tool found on the (saved) PATH at configure time
+        main.append(G.Stmt('command', "command('usetool', cmd=["
+                           "system_executable('mycc'), '--version'])"))
+        proj.features.add('system_executable')
     if rng.random() < 0.6:
         proj.conf_args += [rng.choice(['--flavour=', '--x-flavour=']) +
                            rng.choice(['mint', 'a b', 'x=y'])]
@@ -353,6 +360,12 @@ def gen_scenario(seed, root, params):
         env['CC'] = rng.choice(['mycc', 'cc'])
     if rng.random() < 0.2:
         env['DESTDIR'] = '/tmp/stage'
+    if rng.random() < 0.25:
+        # backend / helper tools chosen explicitly at configure time
+        k = rng.choice(['NINJA', 'MAKE', 'DOPPEL', 'PATCHELF'])
+        env[k] = {'NINJA': os.path.join(w.bin, 'ninja'),
+                  'MAKE': '/usr/bin/make', 'DOPPEL': '/venv/bin/doppel',
+                  'PATCHELF': '/usr/bin/patchelf'}[k]
     model = dict(env)
     tc_lines, used = [], set()
     if rng.random() < 0.75:
@@ -418,6 +431,7 @@ def execute(scn, root, fresh_world=True):
 
     violations, trace, stats = [], [], {}
     feats0 = {'backend=' + backend} | {'tc.' + u for u in used}
+    stats['backend.' + backend] = 1
 
     def vio(oracle, detail, feats=()):
         violations.append(Violation(PROP, oracle, detail,
@@ -481,7 +495,7 @@ def execute(scn, root, fresh_world=True):
                     conf_files = sim.primary()
             elif kind == 'backend':
                 w.append('build.bfg', '# touched {}\n'.format(i))
-                r = R.run_make(w, [sim.buildfile], env=dict(amb))
+                r = sim.backend_run([sim.buildfile], env=dict(amb))
                 trace.append(['backend', r.status,
                               [x.get('outcome') for x in r.inv]])
                 if not r.ok:
